@@ -238,6 +238,9 @@ pub enum What {
     Meta { seq: u64, unack: bool, closure: bool, null: bool, size: u64, src_name: String, dst_name: String, reqs: Vec<Req> },
 }
 
+/// user operations on a transaction that has no Put in the scenario (scripted sender): put = RAW_TXN + sequence number
+pub const RAW_TXN: usize = 1_000_000;
+
 #[derive(Clone, Debug, PartialEq, Eq, Hash)]
 pub enum Entry {
     Fault { src: usize, dst: usize, sel: Sel, act: Act },
